@@ -11,12 +11,14 @@ import (
 	"verifharness/fw"
 	"verifharness/props/c03"
 	"verifharness/props/c06"
+	"verifharness/props/c07"
 	"verifharness/props/c13"
 )
 
 var registry = map[string]func() fw.Prop{
 	"C03": func() fw.Prop { return c03.Prop{} },
 	"C06": func() fw.Prop { return c06.Prop{} },
+	"C07": func() fw.Prop { return c07.Prop{} },
 	"C13": func() fw.Prop { return c13.Prop{} },
 }
 
